@@ -22,6 +22,7 @@ type c02Case struct {
 	Gop    int
 	Cap    int
 	Kinds  []string
+	Rot    int // rotates the other protocols' gop_num relative to rtmp's
 }
 
 func c02Catalogue() []c02Case {
@@ -54,12 +55,37 @@ func c02Catalogue() []c02Case {
 			out = append(out, c02Case{Name: "republish av→av", Shapes: []gen.Shape{av, hc}, Gop: g, Cap: cp, Kinds: kinds})
 		}
 	}
+	for k := range out {
+		out[k].Rot = k % 3
+	}
 	return out
+}
+
+// gopOf / capOf: each protocol has its own gop_num / frame cap in lal's configuration; two thirds of
+// the catalogue give the three protocols different values (Rot = catalogue position % 3).
+func (cs c02Case) gopOf(kind string) int {
+	switch kind {
+	case "flv", "wsflv":
+		return (cs.Gop + cs.Rot) % 3
+	case "ts":
+		return (cs.Gop + 2*cs.Rot) % 3
+	}
+	return cs.Gop
+}
+
+func (cs c02Case) capOf(kind string) int {
+	if cs.gopOf(kind) == 0 {
+		return 0
+	}
+	if cs.Cap == 0 && cs.Rot == 1 && kind != "rtmp" {
+		return 3
+	}
+	return cs.Cap
 }
 
 func c02Scenario(cs c02Case, i int) relayScenario {
 	sc := relayScenario{Stream: fmt.Sprintf("j%d", i), FmtMode: 0, PubChunk: 4096}
-	sc.Conf = srv.Conf{RtmpGop: cs.Gop, RtmpGopCap: cs.Cap, Flv: true, FlvGop: cs.Gop, FlvGopCap: cs.Cap, Ts: true, TsGop: cs.Gop, TsGopCap: cs.Cap}
+	sc.Conf = srv.Conf{RtmpGop: cs.Gop, RtmpGopCap: cs.Cap, Flv: true, FlvGop: cs.gopOf("flv"), FlvGopCap: cs.capOf("flv"), Ts: true, TsGop: cs.gopOf("ts"), TsGopCap: cs.capOf("ts")}
 	sc.Shape = cs.Shapes[0]
 	sc.More = cs.Shapes[1:]
 	return sc
@@ -99,7 +125,7 @@ func c02JudgeMsgConsumer(x *c02Ctx, rec *consumerRec, sawVideoBefore bool) {
 		end = rec.IncStart[inc+1]
 	}
 	sh := x.cs.Shapes[inc]
-	x.desc = fmt.Sprintf("case=%s gop=%d cap=%d consumer=%s join=%d (incarnation %d [%d,%d)) shape=%s", x.cs.Name, x.cs.Gop, x.cs.Cap, kind, j, inc+1, start, end, sh.String())
+	x.desc = fmt.Sprintf("case=%s gop=%d cap=%d consumer=%s join=%d (incarnation %d [%d,%d)) shape=%s", x.cs.Name, x.cs.gopOf(kind), x.cs.capOf(kind), kind, j, inc+1, start, end, sh.String())
 	if rec.ParseErr != "" {
 		x.bad(kind, "parse", "byte stream does not parse: %s", rec.ParseErr)
 		return
@@ -229,7 +255,7 @@ func c02JudgeMsgConsumer(x *c02Ctx, rec *consumerRec, sawVideoBefore bool) {
 			gops[len(gops)-1] = append(gops[len(gops)-1], i)
 		}
 	}
-	G, capn := x.cs.Gop, x.cs.Cap
+	G, capn := x.cs.gopOf(kind), x.cs.capOf(kind)
 	expect := len(gops)
 	if expect > G {
 		expect = G
@@ -384,7 +410,7 @@ func c02JudgeTs(x *c02Ctx, rec *consumerRec) {
 		end = rec.IncStart[inc+1]
 	}
 	sh := x.cs.Shapes[inc]
-	x.desc = fmt.Sprintf("case=%s gop=%d cap=%d consumer=ts join=%d (incarnation %d [%d,%d)) shape=%s", x.cs.Name, x.cs.Gop, x.cs.Cap, j, inc+1, start, end, sh.String())
+	x.desc = fmt.Sprintf("case=%s gop=%d cap=%d consumer=ts join=%d (incarnation %d [%d,%d)) shape=%s", x.cs.Name, x.cs.gopOf("ts"), x.cs.capOf("ts"), j, inc+1, start, end, sh.String())
 	d := rec.Ts.Demux
 	if rec.Ts.Len == 0 {
 		// nothing received: legal only if no TS boundary occurred after admission; require data
@@ -473,6 +499,47 @@ func c02JudgeTs(x *c02Ctx, rec *consumerRec) {
 				x.bad("ts", "first-video-not-key", "first video PES: random_access=%v, published frame %d is %s", p.RAI, frame, pm.Kind)
 				return
 			}
+			if frame < start {
+				x.bad("ts", "replay-foreign-incarnation", "first video PES carries frame %d, published before this incarnation started at %d", frame, start)
+				return
+			}
+			// replay: the joiner starts at the oldest of the last min(gop_num, #key frames so far) GOPs,
+			// or at the next key frame when nothing is cached. Not judged while lal still probes the
+			// codecs (first messages of an incarnation are queued inside the remuxer, so "published"
+			// and "cached" differ) nor after a sequence header change.
+			var keysBefore []int
+			vsh := 0
+			for i := start; i < j; i++ {
+				if pub[i].Kind == gen.Vsh {
+					vsh++
+				}
+				if pub[i].Kind == gen.Key && len(pub[i].Payload) > 0 {
+					keysBefore = append(keysBefore, i)
+				}
+			}
+			if j-start >= 24 && vsh <= 1 {
+				G := x.cs.gopOf("ts")
+				exp := -1
+				if G == 0 || len(keysBefore) == 0 {
+					for i := j; i < end; i++ {
+						if pub[i].Kind == gen.Key && len(pub[i].Payload) > 0 {
+							exp = i
+							break
+						}
+					}
+				} else {
+					k := len(keysBefore)
+					if k > G {
+						k = G
+					}
+					exp = keysBefore[len(keysBefore)-k]
+				}
+				if frame != exp {
+					x.bad("ts", "replay-count", "first video PES carries key frame %d; with gop_num %d and key frames %v published before admission it should start at %d", frame, G, keysBefore, exp)
+					return
+				}
+				c.Count("ts_replay_start_checked", 1)
+			}
 		}
 		if pm.Kind == gen.Key {
 			nals, err := ref.SplitAnnexB(p.Data)
@@ -518,7 +585,7 @@ func c02JudgeTs(x *c02Ctx, rec *consumerRec) {
 		}
 	}
 	c.Eval(1)
-	c.Cell("ts/%s/gop=%d", x.cs.Name, x.cs.Gop)
+	c.Cell("ts/%s/gop=%d", x.cs.Name, x.cs.gopOf("ts"))
 }
 
 func init() {
@@ -533,13 +600,14 @@ func init() {
 		},
 		CaseTimeout: func(string) time.Duration { return 5 * time.Minute },
 		Rule: "one case = one whole-server run of a catalogue entry (stream shape × gop_num{0,1,2} × frame cap{0,3}; shapes: A/V, video-only, audio-only, G.711, Opus+video, sequence-header change at a GOP boundary and mid-GOP, mid-GOP metadata, long GOP, and re-publish histories A/V→audio-only, audio-only→A/V, A/V→A/V) in which an RTMP, an HTTP-FLV and an HTTP-TS joiner are attached at EVERY message index (publisher paused, exact admission index). " +
-			"oracle (Appendix A.1 of DESIGN.md): latest metadata/sequence headers before media and nothing else; header-in-force register equals the header each frame was published under; first video frame is a key frame; replayed GOPs are the last min(gop_num, #keys) GOPs, oldest first, prefixes cut only at cap/cap+1; live continues at the next message (or next key frame when nothing was replayed and the incarnation has video); audio-only incarnations get one of the next 3 audio frames; TS: PAT,PMT first, first video PES random-access with SPS/PPS of the header in force. cell = protocol × shape × gop × cap × join class. thorough repeats the catalogue with other seeds (frame sizes / timestamps).",
+			"oracle (Appendix A.1 of DESIGN.md): latest metadata/sequence headers before media and nothing else; header-in-force register equals the header each frame was published under; first video frame is a key frame; replayed GOPs are the last min(gop_num, #keys) GOPs, oldest first, prefixes cut only at cap/cap+1; live continues at the next message (or next key frame when nothing was replayed and the incarnation has video); audio-only incarnations get one of the next 3 audio frames; TS: PAT,PMT first, first video PES random-access with SPS/PPS of the header in force and carrying the key frame the replay rule names (oldest of the last min(gop_num,#keys) GOPs, else the next key frame; never a frame of an earlier incarnation). rtmp, http-flv and http-ts get different gop_num / cap values in two thirds of the cases (each protocol has its own setting). cell = protocol × shape × gop × cap × join class. thorough repeats the catalogue with other seeds (frame sizes / timestamps).",
 		Assumptions: []string{"reference RTMP/FLV/TS decoders (harness/ref)", "generated streams are decodable from their start (first video frame after a sequence header is a key frame)",
 			"RTSP joiners are covered by C06's RTSP consumer start checks"},
 		MinCells: 20,
 		Run: func(c *fw.Ctx, i int) {
 			cat := c02Catalogue()
 			cs := cat[i%len(cat)]
+			cs.Rot = (cs.Rot + i/len(cat)) % 3
 			sc := c02Scenario(cs, i)
 			// a joiner of each kind at every index of every incarnation
 			rng := c.SubRng("relay")
